@@ -172,6 +172,9 @@ class _SymNum(_Sym):
         return sdiv(o, self)
 
     def __pow__(self, o):
+        e = _CUR
+        if e is not None and e.abstract_squares and o == 2:
+            return e.square_of(self)
         if isinstance(o, (int, numpy.integer)) and not isinstance(o, bool) and o >= 0:
             r = 1
             for _ in range(int(o)):
@@ -382,6 +385,9 @@ class SymBool(_Sym):
 def sdiv(a, b):
     if _isnan(a) or _isnan(b):
         return float("nan")
+    e = _CUR
+    if e is not None and e.abstract_division and is_sym(b):
+        return e.quotient_of(a, b)
     return _sdiv(a, b)
 
 
@@ -630,6 +636,9 @@ class Engine:
         self.cex = []
         self.stop_on_cex = True
         self.failed_labels = set()
+        # over-approximations that keep every query linear (sound for proving; counterexamples are replayed):
+        self.abstract_squares = False  # x**2 -> fresh s >= 0, order-isomorphic to x on the non-negative bases seen
+        self.abstract_division = False  # a/b (symbolic b) -> fresh q with sign/range facts only
         self.fork_abs = False  # abs() as an If-term (False) or as a fork (True: simpler NRA queries)
         self._reset_path([])
 
@@ -641,6 +650,7 @@ class Engine:
         self.trail = []
         self.inputs = {}
         self.div_cache = {}
+        self._squares = {}
         self.decided = {}
         self.nfresh = 0
         self.pc = []
@@ -718,6 +728,42 @@ class Engine:
         ok, _ = self._check()
         if not ok:
             raise SXAbortPath()
+
+    def square_of(self, x):
+        t = _real(term(x))
+        key = ("sq", t.get_id())
+        hit = self.div_cache.get(key)
+        if hit is not None:
+            return hit
+        sq = self.fresh_real("sq")
+        self.add_definition(sq.t >= 0)
+        self.add_definition(z3.Implies(t == 0, sq.t == 0))
+        for (kk, other), osq in list(self.div_cache.items()) if False else []:
+            pass
+        for k2, (ot, osq) in self._squares.items():
+            # monotone on non-negative bases (what squaring guarantees there); equal bases, equal squares
+            self.add_definition(z3.Implies(z3.And(t >= 0, ot >= 0), z3.And((t < ot) == (sq.t < osq.t), (t == ot) == (sq.t == osq.t))))
+            self.add_definition(z3.Implies(t == ot, sq.t == osq.t))
+        self._squares[key] = (t, sq)
+        self.div_cache[key] = sq
+        return sq
+
+    def quotient_of(self, a, b):
+        ta, tb = _real(term(a)), _real(term(b))
+        key = ("quot", ta.get_id(), tb.get_id())
+        hit = self.div_cache.get(key)
+        if hit is not None:
+            return hit
+        if self.decide(tb == 0):
+            raise SXDivisionByZero("symbolic divisor may be zero")
+        q = self.fresh_real("quot")
+        self.add_definition(z3.Implies(z3.And(tb > 0, ta >= 0), q.t >= 0))
+        self.add_definition(z3.Implies(z3.And(tb > 0, ta <= 0), q.t <= 0))
+        self.add_definition(z3.Implies(z3.And(tb > 0, ta <= tb, ta >= 0), q.t <= 1))
+        self.add_definition(z3.Implies(ta == 0, q.t == 0))
+        self.add_definition(z3.Implies(ta == tb, q.t == 1))
+        self.div_cache[key] = q
+        return q
 
     # -- forking
     def decide(self, t, true_side_feasible=False):
